@@ -993,6 +993,12 @@ func (rl *Shell) viYankWholeLine() {
 
 	bpos, epos := rl.selection.Pos()
 
+	// No valid selection (empty buffer): nothing to copy.
+	if bpos < 0 || epos < 0 {
+		rl.selection.Reset()
+		return
+	}
+
 	// If selection has a new line, remove it.
 	if epos > 0 && (*rl.line)[epos-1] == '\n' {
 		epos--
